@@ -30,10 +30,19 @@ var (
 )
 
 type xmpReader struct {
-	r   *bufio.Reader
-	a   bool
-	eof bool // the source has reported io.EOF to Peek
+	r     *bufio.Reader
+	a     bool
+	eof   bool // the source has reported io.EOF to Peek
+	depth int  // nesting depth of the element being read
 }
+
+// maxTagDepth bounds the nesting of elements: readTag recurses once per level, so a packet
+// made of nothing but start tags would otherwise grow the stack with its length until the
+// runtime aborts the process. RDF/XMP data is a few levels deep.
+const maxTagDepth = 256
+
+// ErrTagDepth is returned for a packet whose elements are nested deeper than maxTagDepth.
+var ErrTagDepth = errors.New("error xmp elements nested too deeply")
 
 func newXMPReader(r io.Reader) xmpReader {
 	br, ok := r.(*bufio.Reader)
@@ -357,7 +366,12 @@ func (br *xmpReader) readTag(xmp *XMP, parent Tag) (tag Tag, err error) {
 					return
 				}
 
-				if tag, err = br.readTag(xmp, tag); err != nil {
+				if br.depth++; br.depth > maxTagDepth {
+					return tag, ErrTagDepth
+				}
+				tag, err = br.readTag(xmp, tag)
+				br.depth--
+				if err != nil {
 					return
 				}
 			}
